@@ -35,11 +35,15 @@ class SBool:
 
 
 class SFloat:
-    """Opaque float: only its sign (non-negativity) is tracked."""
-    __slots__ = ("nonneg",)
+    """Opaque float: only its sign (non-negativity) is tracked -- except for WALL-CLOCK SECONDS
+    (time.monotonic() and sums of it with whole seconds), which also carry the ghost clock value in
+    nanoseconds (`ns`), so that deadlines computed in float seconds can be compared and used in loop
+    variants; rounding of the float representation is ignored (as timer granularity is)."""
+    __slots__ = ("nonneg", "ns")
 
-    def __init__(self, nonneg):
+    def __init__(self, nonneg, ns=None):
         self.nonneg = nonneg
+        self.ns = ns
 
 
 class SRatio:
